@@ -457,5 +457,30 @@ def run_vacuity_probes(ctx, unit_name):
             hit |= h
             if err:
                 errors.append(err)
-    vac = [p for p in expected if p not in hit]
-    return {"unit": unit_name, "expected": len(expected), "failed_as_expected": len(hit), "vacuous": vac, "errors": errors}
+    missing = [p for p in expected if p not in hit]
+    # a probe that was not reported may have been swallowed by a resource-limit answer for its function in the
+    # whole-unit run: re-run that function alone; only an isolated run WITHOUT any error for it means "vacuous"
+    vac, inconclusive = [], []
+    for tag in missing:
+        m = re.match(r"probe:(?:start|after-loop):([A-Za-z0-9_]+)", tag)
+        which = "start" if tag.startswith("probe:start") else int(tag.rsplit(".", 1)[1])
+        path = os.path.join(BUILD, "units", "%s_probe_%s.rs" % (unit_name, which))
+        if not m or not os.path.exists(path):
+            vac.append(tag)
+            continue
+        r = V.run(path, extra=["--multiple-errors", "60", "--verify-root", "--verify-function", m.group(1)], rlimit=40)
+        probe = {"which": which, "tags": []}
+        u = unit_det.build(C.Ctx(), unit_name, None, probe=probe)
+        got = False
+        for e in r["errors"]:
+            if e["line"] and "assertion failed" in e["msg"]:
+                loc = u.locate(e["line"], e["col"])
+                if loc.get("kind") == "inserted" and loc.get("tag") == tag:
+                    got = True
+        if got:
+            hit.add(tag)
+        elif r["errors"]:
+            inconclusive.append(tag)
+        else:
+            vac.append(tag)
+    return {"unit": unit_name, "expected": len(expected), "failed_as_expected": len(hit), "vacuous": vac, "inconclusive": inconclusive, "errors": errors}
